@@ -54,4 +54,5 @@ package container
 //@   modifies new([]interface{})
 
 //@ func NewMutexMap
-//@   ensures[C19] r != nil && fresh(r) && r.values != nil && mlen(r.values) == 0
+//@   ensures[C19] r != nil && fresh(r) && r.values != nil && fresh(r.values) && mlen(r.values) == 0 && forall(q, int, !mhas(r.values)[q])
+//@   modifies new(container.MutexMap), newmap(r.values)
